@@ -520,7 +520,15 @@ def worker(case: Dict[str, Any]) -> CaseResult:
         cfg_full["files_to_include"] = list(cfg_full.get("files_to_include", [])) + ["vf_csm.py"]
         feats = list(feats) + ["scalar.config.strict_parse"]
     with core.Scratch() as root:
-        cfg = write_case(root, sdl, queries, cfg_full, extra_files=extra_files or None)
+        if "C04" in props and case["idx"] % 12 == 9 and not case.get("corpus") and len(frs + ops) > 1:
+            # operations and fragments spread over a directory (three extensions, a nested folder, a dot-named folder), named through a `..` component
+            exts = [".graphql", ".gql", ".graphqls"]
+            qfiles = {("%s%s%d%s" % (["", "nested/", ".drafts/"][k_ % 3], "ops" if d_ in ops else "frag", k_, exts[k_ % 3])): d_ for k_, d_ in enumerate(frs + ops)}
+            (root / "conf").mkdir(exist_ok=True)
+            cfg = write_case(root, sdl, None, dict(cfg_full, queries_path="conf/../queries_dir"), query_files=qfiles, extra_files=extra_files or None)
+            feats.append("source.queries_directory")
+        else:
+            cfg = write_case(root, sdl, queries, cfg_full, extra_files=extra_files or None)
         if case["idx"] % 5 == 1 and not case.get("config_rel"):
             from ..genpkg import plant_stale_bundled_copies
             stats["stale_bundled_copies_planted"] = plant_stale_bundled_copies(root, cfg)  # the target holds another release's copies: they must be replaced
